@@ -28,14 +28,18 @@ def rand_input(rng):
     return "".join(out)
 
 
+LONG_RETRIES = [0]
+
+
 def run_bin(args):
     path, lvl, data = args
-    for limit in (20, 180):      # the copy programs terminate: a time-out gets one much longer retry (loaded machine)
-        try:
-            p = subprocess.run([HYEONG_BIN, "--color", "never", "run", "-O%d" % lvl, path], input=data, stdout=subprocess.PIPE, stderr=subprocess.PIPE, timeout=limit)
-            return p.stdout, p.stderr, p.returncode
-        except subprocess.TimeoutExpired:
-            pass
+    for limit in (20, 180):
+        if limit > 20:
+            # bounded number of long retries: a change that makes the copiers endless must not make the check endless
+            LONG_RETRIES[0] += 1
+            if LONG_RETRIES[0] > NCPU: break      # the copy programs terminate: a time-out gets one much longer retry (loaded machine)
+        p = run_capped([HYEONG_BIN, "--color", "never", "run", "-O%d" % lvl, path], input=data, timeout=limit, cap=max(1 << 24, 4 * len(data)))
+        if p.returncode != "timeout": return p.stdout, p.stderr, p.returncode
     return b"", b"", "timeout"
 
 
